@@ -75,7 +75,14 @@ def r6_2(ctx):
     if miss:
         ctx.violation(construct(f, "task-candidates"), tl[0].loc, f"the allocator never looks at tasks in state {sorted(miss)}: such a task can never get (more) workers")
     if isinstance(tl[0].coll, CollV):
-        extra = [ast.unparse(b) for _p, b in tl[0].coll.preds if "state" not in ast.unparse(b)]
+        # every condition of the candidate filter, conjunct by conjunct: anything it reads of a task besides its state narrows
+        # the candidates below "READY or WORKING" (such a task is never offered a worker, however idle the workers are)
+        extra = []
+        for pn, b in tl[0].coll.preds:
+            for cj in (b.values if isinstance(b, ast.BoolOp) and isinstance(b.op, ast.And) else [b]):
+                reads = {n.attr for n in ast.walk(cj) if isinstance(n, ast.Attribute) and isinstance(n.value, ast.Name) and n.value.id == pn}
+                if reads - {"state"}:
+                    extra.append(ast.unparse(cj))
         if extra:
             ctx.violation(construct(f, "task-candidates-filtered"), tl[0].loc, f"the allocator's task list is additionally filtered by {extra}")
     wf_check = ctx.repo.method(WORKFLOW, "check_state")
@@ -189,3 +196,6 @@ def run(ctx):
     # a component that cannot be placed keeps its facility task READY for ever: location and contents are reset together
     from ..initflags import group_rule
     group_rule(ctx, "R13.10", "placement", "a workplace keeps listing components that no longer report being there: their space is never given back")
+    # ... and a component that fits must be let in: the move guard and the capacity arithmetic of can_put (each placed entry counts once)
+    from .C13 import r13_3
+    r13_3(ctx)
